@@ -82,7 +82,11 @@ func prop(ind reg.Ind) engine.AnyProp {
 			cfg := ind.GenConfig(t, 0)
 			w := ind.Idle(cfg)
 			n := gen.GenLen(t, w, 260)
-			return Case{Cfg: cfg, Bars: gen.GenBars(t, n)}
+			b := gen.GenBars(t, n)
+			if rapid.IntRange(0, 11).Draw(t, "columns_unordered") == 5 {
+				b = gen.Unordered(t, b)
+			}
+			return Case{Cfg: cfg, Bars: b}
 		},
 		Check: func(c Case) engine.Outcome {
 			var o engine.Outcome
